@@ -892,4 +892,215 @@ Proof.
   cbn [fst st_ctx st_with_ctx sink ctx_check]. apply clear_fit, He.
 Qed.
 
+(** ---- the one transient exception: a closed raw segment cut short by a partial
+    candidate is swallowed again by the fallback segmentor in the first round of
+    the Compose that follows ---- *)
+Lemma common_prefix_firstn2 (a : bytes) n k : common_prefix (firstn n a) (firstn k a) = Nat.min (Nat.min n k) (length a).
+Proof.
+  revert n k. induction a as [|x a IH]; intros [|n] [|k]; cbn [firstn common_prefix length Nat.min]; try reflexivity.
+  rewrite byte_eqb_refl, IH. reflexivity.
+Qed.
+
+Lemma g_chain_ends n g r : chain_rev (g :: r) -> Forall (seg_geo n) (g :: r) -> Forall (fun g' => s_end g' <= s_start g) r.
+Proof. intros A B. wf chain_ends_le. Qed.
+
+Lemma nth_firstn_same (a : bytes) n p : p < n -> nth p (firstn n a) x00 = nth p a x00.
+Proof. intros H. apply nth_firstn_lt, H. Qed.
+
+Lemma compose_absorb c gb r e :
+  sg_segs (cx_comp c) = new_segment e e :: gb :: r ->
+  sgeo (cx_comp c) -> prefix_ok c -> cx_err c = None ->
+  lfit false (sg_input (cx_comp c)) r ->
+  closed gb = true -> s_end gb = e -> is_raw gb = true -> s_length gb = 1 -> s_start gb < e ->
+  (forall p, s_start gb <= p <= e -> unabc (sg_input (cx_comp c)) p) ->
+  e < length (sg_input (cx_comp c)) -> e < cx_caret c -> cx_caret c <= length (cx_input c) ->
+  fit (compose cfg translate c).
+Proof.
+  intros Es Hgeo P He Lr Hcl Hend Hraw Hlen1 Hst Hun Hen Hek Hka.
+  apply compose_fit_core; [exact He | exact Hgeo|].
+  destruct (compose_sg1_facts c Hgeo) as (G1 & _).
+  destruct c as [a k comp opts err]. destruct comp as [inp segs]. unfold prefix_ok in P. cbn in Es, P, Hen, Hek, Hka, Hun, Lr, He. subst segs.
+  remember (length inp) as n eqn:En.
+  assert (Esg1 : compose_sg1 (mkCtx a k (mkSegm inp (new_segment e e :: gb :: r)) opts err)
+                 = mkSegm (firstn k a) (new_segment e e :: gb :: r)).
+  { unfold compose_sg1. cbn [cx_comp cx_caret cx_input].
+    assert (E0 : reset_input (mkSegm inp (new_segment e e :: gb :: r)) (firstn k a) = mkSegm (firstn k a) (new_segment e e :: gb :: r)).
+    { unfold reset_input. cbn [sg_input sg_segs]. rewrite P, common_prefix_firstn2.
+      cbn [dispose s_end new_segment]. replace (Nat.min (Nat.min n k) (length a) <? e) with false by (symmetry; apply Nat.ltb_ge; lia).
+      cbn. reflexivity. }
+    rewrite E0. unfold confirmed_pos. cbn [sg_segs confirmed_pos_rev s_status new_segment].
+    change (status_geb SVoid SSelected) with false. cbv beta iota.
+    unfold closed in Hcl. rewrite Hcl, Hend. replace (k =? e) with false by (symmetry; apply Nat.eqb_neq; lia).
+    rewrite andb_false_r. reflexivity. }
+  rewrite Esg1 in *. cbn [cx_caret sg_input].
+  assert (Hl1 : length (firstn k a) = k) by (rewrite firstn_length; lia).
+  assert (Hun1 : forall p, s_start gb <= p <= e -> unabc (firstn k a) p).
+  { intros p Hp. apply (unabc_ext inp (firstn k a) p); [lia | lia | | apply Hun, Hp].
+    rewrite P. rewrite !nth_firstn_same by lia. reflexivity. }
+  assert (Lr1 : lfit false (firstn k a) r).
+  { destruct Hgeo as (Hc & Hf). cbn in Hc, Hf. inversion Hf as [|? ? _ Hf1]; subst.
+    pose proof (g_chain_ends _ gb r (proj2 Hc) Hf1) as Hle.
+    apply (lfit_ext false inp (firstn k a) r (s_start gb)); [exact Hle | lia | lia | | exact Lr].
+    intros p Hp. rewrite P. rewrite !nth_firstn_same by lia. reflexivity. }
+  remember (firstn k a) as inp1 eqn:Ei1.
+  set (sgA := mkSegm inp1 (new_segment e e :: gb :: r)) in *.
+  set (gX := seg_with_tags (seg_clear (seg_with_end gb (S e))) [TRaw]).
+  set (sgX := mkSegm inp1 (gX :: r)).
+  assert (Hround : fallback_proceed (abc_proceed cfg sgA) = sgX).
+  { assert (Ha : abc_proceed cfg sgA = sgA).
+    { unfold abc_proceed. cbn [cur_start sgA sg_segs s_start new_segment sg_input].
+      pose proof (Hun1 e ltac:(lia)) as U. unfold unabc in U. rewrite U, Nat.add_0_r, Nat.ltb_irrefl. reflexivity. }
+    rewrite Ha. unfold fallback_proceed, cur_len, cur_start. cbn [sgA sg_segs s_start s_end new_segment sg_input].
+    rewrite Nat.sub_diag. cbn [Nat.ltb Nat.leb]. rewrite Hl1.
+    replace (e =? k) with false by (symmetry; apply Nat.eqb_neq; lia).
+    rewrite Nat.eqb_refl. cbn [sg_pop_back sg_with_segs sg_segs tl sg_input sgA].
+    unfold is_raw in Hraw. rewrite Hraw. reflexivity. }
+  assert (GX : sgeo sgX) by (rewrite <- Hround; apply g_fallback, g_abc, G1).
+  assert (LX : lfit false inp1 (sg_segs sgX)).
+  { cbn [sgX sg_segs]. constructor; [|exact Lr1]. apply sfit_nomenu; [|reflexivity].
+    split; [intros _ | cbn; discriminate]. cbn [gX s_length s_start s_end seg_with_tags seg_clear seg_with_end].
+    split; [exact Hlen1|]. split; [lia|]. intros p Hp. apply Hun1. lia. }
+  cbn [calc_loop]. unfold has_finished at 1. cbn [sgA sg_input cur_end sg_segs s_end new_segment]. rewrite Hl1.
+  replace (k <=? e) with false by (symmetry; apply Nat.leb_gt; lia).
+  fold sgA. rewrite Hround. cbn [cur_start sgA sg_segs s_start new_segment cur_end sgX gX s_end seg_with_tags seg_clear seg_with_end].
+  replace (e =? S e) with false by (symmetry; apply Nat.eqb_neq; lia).
+  replace (k <=? e) with false by (symmetry; apply Nat.leb_gt; lia).
+  destruct (has_finished sgX).
+  - apply (calc_loop_lfit false k k sgX GX LX).
+  - change inp1 with (sg_input sgX). rewrite <- (forward_input sgX).
+    apply calc_loop_lfit; [apply g_forward, GX|]. rewrite forward_input. apply forward_lfit, LX.
+Qed.
+
+(** ---- Segment::Close and ConcreteEngine::OnSelect ---- *)
+Lemma seg_close_cases g :
+  seg_close g = g \/
+  exists c, selected_cand g = Some c /\ c_end c < s_end g /\
+            seg_close g = seg_with_tags (seg_with_end g (c_end c)) (tag_insert TPartial (s_tags g)).
+Proof.
+  unfold seg_close. destruct (selected_cand g) as [c|]; [|left; reflexivity].
+  destruct (c_end c <? s_end g) eqn:E; [|left; reflexivity]. apply Nat.ltb_lt in E. right. exists c. auto.
+Qed.
+
+Lemma selected_in g c : selected_cand g = Some c -> exists m, s_menu g = Some m /\ In c m.
+Proof.
+  unfold selected_cand, cand_at. destruct (s_menu g) as [m|]; [|discriminate]. unfold menu_at.
+  destruct (menu_count m <=? s_sel g)%N; [discriminate|]. intros H. apply nth_error_In in H. exists m. auto.
+Qed.
+
+Lemma g_seg_close n g : seg_inv cfg MPf g -> seg_geo n g -> s_start (seg_close g) = s_start g /\ seg_geo n (seg_close g).
+Proof. intros A B. wf seg_close_geo. Qed.
+
+Lemma sfit_confirm b inp g : closed g = true -> sfit b inp g -> sfit b inp (seg_with_status g SConfirmed).
+Proof.
+  intros Hc (Ht & Hm). split; [exact Ht|]. intros m Em. cbn in Em. specialize (Hm m Em). unfold menu_ok in *.
+  cbn [s_status seg_with_status]. destruct (closed_status g Hc) as [Es | Es]; rewrite Es in Hm; exact Hm.
+Qed.
+
+Lemma close_short_sfit inp g0 c :
+  sfit true inp g0 -> closed g0 = true -> selected_cand g0 = Some c -> s_start g0 < c_end c -> c_end c < s_end g0 ->
+  s_end g0 <= s_start g0 + s_length g0 ->
+  sfit true inp (seg_with_tags (seg_with_end g0 (c_end c)) (tag_insert TPartial (s_tags g0))).
+Proof.
+  intros ((R & N) & Hm) Hc Hsel H1 H2 HL. split.
+  - split; unfold is_raw; cbn [s_tags s_start s_end s_length seg_with_tags seg_with_end]; rewrite has_tag_insert; cbn [tag_eqb orb].
+    + intros Hr. destruct (R Hr) as (A & B & C). split; [exact A|]. split; [exact H1|]. intros p Hp. apply C. lia.
+    + intros _. lia.
+  - intros m Em. cbn in Em. specialize (Hm m Em). unfold menu_ok in *. cbn [s_status seg_with_tags seg_with_end].
+    assert (Hsel' : selected_cand (seg_with_tags (seg_with_end g0 (c_end c)) (tag_insert TPartial (s_tags g0))) = Some c) by exact Hsel.
+    assert (X : (forall c0, selected_cand g0 = Some c0 -> c_end c0 <= s_end g0) /\
+                (forall c0, In c0 m -> c_end c0 <= oend g0) /\ (s_start g0 = s_end g0 -> m = [])).
+    { destruct (closed_status g0 Hc) as [Es | Es]; rewrite Es in Hm; exact Hm. }
+    destruct X as (_ & X2 & _).
+    assert (Y : (forall c0, selected_cand (seg_with_tags (seg_with_end g0 (c_end c)) (tag_insert TPartial (s_tags g0))) = Some c0 ->
+                            c_end c0 <= c_end c) /\
+                (forall c0, In c0 m -> c_end c0 <= oend (seg_with_tags (seg_with_end g0 (c_end c)) (tag_insert TPartial (s_tags g0)))) /\
+                (s_start g0 = c_end c -> m = [])).
+    { split; [intros c0 Hc0; rewrite Hsel' in Hc0; injection Hc0 as <-; lia|]. split; [|intros X; lia].
+      intros c0 Hc0. specialize (X2 c0 Hc0). unfold oend in *. cbn [s_start s_end s_length seg_with_tags seg_with_end]. lia. }
+    destruct (closed_status g0 Hc) as [Es | Es]; rewrite Es; exact Y.
+Qed.
+
+Lemma on_select_good s g0 r :
+  sinvT s -> cx_err (st_ctx s) = None -> sg_segs (cx_comp (st_ctx s)) = g0 :: r ->
+  lfit true (sg_input (cx_comp (st_ctx s))) (g0 :: r) -> closed g0 = true -> prefix_ok (st_ctx s) ->
+  sgood (on_select cfg translate s).
+Proof.
+  intros H He E L Hcl P.
+  split; [wf on_select_inv; rewrite E; discriminate|].
+  set (c := st_ctx s) in *.
+  destruct (good_geo c H) as (Hgeo & Hcar).
+  assert (Hlen2 : length (sg_input (cx_comp c)) <= length (cx_input c)) by apply H.
+  assert (Hcin : cx_caret c <= length (cx_input c)) by apply H.
+  assert (Hsi : seg_inv cfg MPf g0) by (wf back_inv).
+  pose proof (back_seg_geo _ g0 r Hgeo E) as Hg0.
+  destruct (g_seg_close _ g0 Hsi Hg0) as (C1 & C2).
+  inversion L as [|? ? Lg0 Lr]; subst.
+  unfold on_select. fold c. rewrite E. cbn [st_ctx]. set (g := seg_close g0) in *.
+  match goal with |- fit (st_ctx ?x) => assert (Hx : fit (st_ctx x)); [|exact Hx] end.
+  destruct (s_end g =? length (cx_input c)) eqn:Eend.
+  - (* the whole input is covered: Confirmed *)
+    apply Nat.eqb_eq in Eend.
+    assert (Eg : g = g0).
+    { destruct (seg_close_cases g0) as [X | (cd & _ & X1 & X2)]; [exact X|]. exfalso. subst g. rewrite X2 in Eend. cbn in Eend.
+      destruct Hg0 as (_ & B). lia. }
+    rewrite Eg in *.
+    set (c1 := ctx_with_comp c (sg_set_back (cx_comp c) (seg_with_status g0 SConfirmed))).
+    assert (Hb : sfit true (sg_input (cx_comp c)) (seg_with_status g0 SConfirmed)) by (apply sfit_confirm; assumption).
+    assert (H1 : cinvT c1).
+    { assert (Hsi' : seg_inv cfg MPf (seg_with_status g0 SConfirmed)) by (wf seg_inv_status).
+      assert (Hbg : True -> back_geo_ok c (seg_with_status g0 SConfirmed)).
+      { intros _. wf back_geo_same. intros g1 r1 E1. rewrite E in E1. injection E1 as <- <-. split; reflexivity. }
+      unfold c1. wf cinv_set_back. }
+    destruct (get_option c1 opt_auto_commit).
+    + cbn [st_ctx]. apply (commit_good_gen (st_with_ctx s c1)); [exact H1 | exact He|].
+      unfold is_composing, c1, sg_empty, sg_set_back. cbn [st_ctx st_with_ctx ctx_with_comp cx_comp]. rewrite E. cbn. apply orb_true_r.
+    + cbn [st_ctx st_with_ctx]. split; [exact He|]. unfold c1. cbn [ctx_with_comp cx_comp]. rewrite forward_input, set_back_input.
+      split; [apply forward_lfit, set_back_lfit; [rewrite E; exact L | exact Hb]|]. split; [apply forward_last|].
+      unfold prefix_ok. cbn [ctx_with_comp cx_comp cx_input]. rewrite forward_input, set_back_input. exact P.
+  - apply Nat.eqb_neq in Eend.
+    set (c1 := ctx_with_comp c (fst (forward (sg_set_back (cx_comp c) g)))).
+    assert (G1 : sgeo (fst (forward (sg_set_back (cx_comp c) g)))).
+    { apply g_forward. apply (set_back_sgeo _ g g0 r Hgeo E C1 C2). }
+    assert (Hmain : forall i k, (i = cx_input c /\ (k = length i \/ (k = cx_caret c /\ s_end g < k))) ->
+                                fit (compose cfg translate (ctx_with_input c1 i k))).
+    { intros i k Hik.
+      assert (Hok : sfit true (sg_input (cx_comp c)) g -> fit (compose cfg translate (ctx_with_input c1 i k))).
+      { intros Hg. apply compose_fit_gen; [exact G1|]. split; [exact He|]. unfold c1. cbn [ctx_with_input ctx_with_comp cx_comp].
+        rewrite forward_input, set_back_input. apply forward_lfit, set_back_lfit; [apply lfit_weaken; rewrite E; exact L | apply sfit_weaken, Hg]. }
+      destruct (seg_close_cases g0) as [X | (cd & X0 & X1 & X2)]; [apply Hok; unfold g; rewrite X; exact Lg0|].
+      destruct (selected_in g0 cd X0) as (m & Em & Hin).
+      assert (Hst : s_start g0 < c_end cd) by (destruct Hsi as (_ & Hsi); destruct (Hsi m Em) as (_ & _ & Hmp); apply Hmp, Hin).
+      destruct (Nat.le_gt_cases (s_end g0) (s_start g0 + s_length g0)) as [HL | HL].
+      { apply Hok. unfold g. rewrite X2. apply close_short_sfit; assumption. }
+      (* a raw segment with a stale length, cut short: absorbed by the Compose *)
+      destruct Lg0 as ((R & N) & _).
+      destruct (is_raw g0) eqn:Er; [|specialize (N eq_refl); lia]. destruct (R eq_refl) as (R1 & R2 & R3).
+      destruct Hik as (-> & Hk).
+      assert (Eg : g = seg_with_tags (seg_with_end g0 (c_end cd)) (tag_insert TPartial (s_tags g0))) by exact X2.
+      assert (Esegs : sg_segs (fst (forward (sg_set_back (cx_comp c) g))) = new_segment (c_end cd) (c_end cd) :: g :: r).
+      { unfold sg_set_back. rewrite E. unfold forward. cbn [sg_segs sg_with_segs]. rewrite Eg at 1 2.
+        cbn [s_start s_end seg_with_tags seg_with_end]. replace (s_start g0 =? c_end cd) with false by (symmetry; apply Nat.eqb_neq; lia).
+        cbn [fst sg_push_back sg_segs sg_with_segs]. rewrite Eg. reflexivity. }
+      destruct Hg0 as (_ & Hg0b).
+      apply (compose_absorb _ g r (c_end cd)); unfold c1; cbn [ctx_with_input ctx_with_comp cx_comp cx_input cx_caret cx_err];
+        rewrite ?forward_input, ?set_back_input.
+      - exact Esegs.
+      - exact G1.
+      - unfold prefix_ok. cbn [ctx_with_input ctx_with_comp cx_comp cx_input]. rewrite ?forward_input, ?set_back_input. exact P.
+      - exact He.
+      - apply lfit_weaken, Lr.
+      - rewrite Eg. exact Hcl.
+      - rewrite Eg. reflexivity.
+      - rewrite Eg. unfold is_raw. cbn [s_tags seg_with_tags]. rewrite has_tag_insert. exact Er.
+      - rewrite Eg. exact R1.
+      - rewrite Eg. exact Hst.
+      - rewrite Eg. cbn [s_start seg_with_tags seg_with_end]. intros p Hp. apply R3. lia.
+      - lia.
+      - rewrite Eg in Hk. cbn [s_end seg_with_tags seg_with_end] in Hk. destruct Hk as [-> | (-> & Hk)]; lia.
+      - destruct Hk as [-> | (-> & Hk)]; lia. }
+    destruct (cx_caret c <=? s_end g) eqn:Er; cbn [st_ctx st_with_ctx].
+    + unfold set_caret_pos. apply Hmain. split; [reflexivity|]. left. rewrite Nat.ltb_irrefl. reflexivity.
+    + apply Nat.leb_gt in Er. apply (Hmain (cx_input c) (cx_caret c)). split; [reflexivity|]. right. split; [reflexivity | exact Er].
+Qed.
+
 End Full.
